@@ -135,6 +135,24 @@ fn registry(prop: &str) -> Option<(CheckSpec, RunFn, Cands)> {
             };
             Some((s, fshist::rewrite::run_c19, stream::no_shrink))
         }
+        "C20" => {
+            let s = CheckSpec {
+                prop: "C20",
+                engine: "fs-history-sim",
+                level: "exploration",
+                rule: "one run = one Parquet file (1-6 row groups; strings with few, unique or > 4096 distinct values) and 2-4 actors, each a real thread with its own one-thread rayon pool that registers the file and runs 1-2 of five queries with sidecars in build (or auto) mode; half of the actors behave as threads of ANOTHER process (own pid for the staging directory, no shared in-process lock); a seeded controller releases exactly one actor at a time at the park points of ensure_sidecar / build_sidecar / read_row_group, never releases an actor into the held build lock, and may kill an other-process builder at any build point; initial conditions: none, a stale sidecar, a dead builder's staging directory, a fresh sidecar; while all actors are parked a published sidecar carrying .complete must hold every row-group file complete; every query must equal the sidecar-off answer; distinct = distinct (initial condition, sequence of park sites)",
+                runs_quick: 800,
+                runs_thorough: 60000,
+                secs_quick: 50,
+                secs_thorough: 900,
+                gate_runs: 16,
+                real: &["storage::ipc_cache ensure_sidecar / is_fresh / build_sidecar / read_row_group", "every sidecar call site (morsel, morsel_agg, streaming scan, eager ParquetTable reads)", "BUILD_LOCK for same-process actors, staging + rename for other-process actors"],
+                stub: &["a second process is simulated by a thread that stages under another pid and bypasses the in-process lock (the only two things a process boundary changes for this code); a killed process is an actor thread unwound at a park point"],
+                assumptions: &["reads issued from helper threads without an actor id do not park (they run freely)"],
+                expected_probes: &["published_sidecar_seen_whole", "reader_and_publisher_interleaved", "two_foreign_builders"],
+            };
+            Some((s, fshist::sidecar::run_c20, stream::no_shrink))
+        }
         "C16" | "C41" => {
             let c16 = prop == "C16";
             let s = CheckSpec {
